@@ -1419,6 +1419,12 @@ concat = cat
 concatenate = cat
 
 
+def dist(a, b, p=2):
+    if p != 2:
+        unsupported('dist with p != 2')
+    return _norm(a - b)
+
+
 def hstack(tensors):
     ts = list(tensors)
     if not ts:
